@@ -70,7 +70,17 @@ func (x *Exec) callWith(s *State, cc *ssa.CallCommon, args []Val, fnv *Val, inst
 	}
 	// unknown code: field contract or generic
 	origin := x.funcValueOrigin(cc.Value)
+	x.curOwner = nil
+	if u, ok := cc.Value.(*ssa.UnOp); ok {
+		if fa, ok := u.X.(*ssa.FieldAddr); ok {
+			ov := x.val(s, fa.X)
+			if ov.Loc == nil {
+				x.curOwner = &ov
+			}
+		}
+	}
 	setRes(x.callUnknown(s, "funcvalue:"+origin, origin, nil, &fv, cc.Signature(), args))
+	x.curOwner = nil
 	return false
 }
 
@@ -136,6 +146,9 @@ func (x *Exec) callUnknown(s *State, evName, specName string, recv *Val, fv *Val
 	}
 	if fv != nil {
 		vars["#fn"] = *fv
+	}
+	if x.curOwner != nil {
+		vars["owner"] = *x.curOwner
 	}
 	names := spec.Params
 	for i, a := range args {
